@@ -87,6 +87,48 @@ fn join_suffix<P: AsRef<Path>>(path: &Path, suffix: P) -> PathBuf {
     path.join(components)
 }
 
+/// Re-root the client supplied `path` below `root` (see `join_suffix`) and resolve it the way the
+/// kernel will for this process - `..` components and symlinks, which the toolchain, the inputs
+/// or the job itself may have left in the root - refusing anything that ends up outside `root`.
+/// With `create_dirs`, missing directories are created one component at a time, so that nothing
+/// is ever created through a link (or a `..`) that leads out of the root.
+fn resolve_inside(root: &Path, path: &Path, create_dirs: bool) -> Result<PathBuf> {
+    let root = fs::canonicalize(root).context("Failed to resolve the build root")?;
+    let lexical = join_suffix(&root, path);
+    let mut resolved = root.clone();
+    for component in lexical
+        .strip_prefix(&root)
+        .context("Path is not below the build root")?
+        .components()
+    {
+        match component {
+            path::Component::Normal(name) => {
+                resolved.push(name);
+                match fs::symlink_metadata(&resolved) {
+                    Ok(meta) if meta.file_type().is_symlink() => {
+                        resolved = fs::canonicalize(&resolved)?;
+                    }
+                    Ok(_) => {}
+                    Err(e) if e.kind() == io::ErrorKind::NotFound => {
+                        if create_dirs {
+                            fs::create_dir(&resolved)?;
+                        }
+                    }
+                    Err(e) => return Err(e.into()),
+                }
+            }
+            path::Component::ParentDir => {
+                resolved.pop();
+            }
+            path::Component::CurDir | path::Component::RootDir | path::Component::Prefix(_) => {}
+        }
+        if !resolved.starts_with(&root) {
+            bail!("Path {:?} leads out of the build root", path);
+        }
+    }
+    Ok(resolved)
+}
+
 // Verification hook H6 (guard: --cfg sccache_verif): exposes the private path arithmetic.
 #[cfg(sccache_verif)]
 pub(crate) fn verif_join_suffix<P: AsRef<Path>>(path: &Path, suffix: P) -> PathBuf {
@@ -328,8 +370,7 @@ impl OverlayBuilder {
                     let cwd = Path::new(&cwd);
 
                     trace!("creating output directories");
-                    fs::create_dir_all(join_suffix(&target_dir, cwd))
-                        .context("Failed to create cwd")?;
+                    resolve_inside(&target_dir, cwd, true).context("Failed to create cwd")?;
                     for path in output_paths.iter() {
                         // If it doesn't have a parent, nothing needs creating
                         let output_parent = if let Some(p) = Path::new(path).parent() {
@@ -337,7 +378,7 @@ impl OverlayBuilder {
                         } else {
                             continue;
                         };
-                        fs::create_dir_all(join_suffix(&target_dir, cwd.join(output_parent)))
+                        resolve_inside(&target_dir, &cwd.join(output_parent), true)
                             .context("Failed to create an output directory")?;
                     }
 
@@ -392,7 +433,9 @@ impl OverlayBuilder {
                     let mut outputs = vec![];
                     trace!("retrieving {:?}", output_paths);
                     for path in output_paths {
-                        let abspath = join_suffix(&target_dir, cwd.join(&path)); // Resolve in case it's relative since we copy it from the root level
+                        // Resolve in case it's relative since we copy it from the root level
+                        let abspath = resolve_inside(&target_dir, &cwd.join(&path), false)
+                            .context("Failed to resolve an output path")?;
                         match fs::File::open(abspath) {
                             Ok(file) => {
                                 let output = OutputData::try_from_reader(file)
